@@ -39,5 +39,29 @@ class DataB(types.DataClass):
     c: object = 'x'
 
 
-CLASSES = dict(ImmA=ImmA, ImmB=ImmB, ImmV=ImmV, SingA=SingA, SingB=SingB, DataA=DataA, DataB=DataB)
-INTERNED = ('SingA', 'SingB', 'DataA', 'DataB')
+class ImmK(types.Immutable):     # extra keyword arguments: the order in which they are passed must not matter
+    def __init__(self, a, **kw):
+        self.a, self.kw = a, kw
+
+
+class SingK(types.Singleton):
+    def __init__(self, a, **kw):
+        self.a, self.kw = a, kw
+
+
+class DataE(types.DataClass):    # a container-like dataclass (cf. evaluable.Tuple): falsy when empty
+    items: tuple
+
+    def __len__(self):
+        return len(self.items)
+
+
+class DataF(types.DataClass):
+    items: tuple
+
+    def __len__(self):
+        return len(self.items)
+
+
+CLASSES = dict(ImmA=ImmA, ImmB=ImmB, ImmV=ImmV, SingA=SingA, SingB=SingB, DataA=DataA, DataB=DataB, ImmK=ImmK, SingK=SingK, DataE=DataE, DataF=DataF)
+INTERNED = ('SingA', 'SingB', 'DataA', 'DataB', 'SingK', 'DataE', 'DataF')
